@@ -4,6 +4,9 @@ Leg M : TLC checks the monitor E37Session (state-model invariants, action proper
 Leg R : TLC dumps the complete labelled transition relation of the monitor; edge-covering histories are
         replayed on a real HsmsProtocol (FakeConnection, simrt) -- also with a message already in flight
         when the connection is accepted, under random thread schedules.
+Leg T : spec/HsmsEndpoint.tla models the conn thread, receive path, dispatcher and select thread one action per shared-state
+        access (exhaustive TLC check, two ordering defects kept as witnesses); executions of the real code are recorded as
+        event traces (sys.settrace, no hooks) and validated by TLC against it (HsmsEndpointTrace) -- see c05_trace.py.
 Leg V : the recorded executions (inputs + observed frames/events/deliveries/state) are judged by TLC
         (E37Judge folds the monitor over every trace; first failing clause is named).
 """
@@ -204,11 +207,16 @@ def run(ctx: Ctx):
                     "what": f"E37 monitor clause '{v['clause']}' fails at step {v['at']} ({json.dumps(st['inp'])}) "
                             f"in state {sig['state_before']} ({t['mode']})"})
         ctx.violation(rec)
+    # ---- Leg T: thread-level model HsmsEndpoint + trace validation of recorded executions
+    from . import c05_trace
+    c05_trace.check(ctx, wd, pmap)
     ctx.rule = ("histories = one shortest path per edge of the E37 monitor's transition relation + random walks of 30 inputs "
                 "+ every (Connect, message) pair with the message already in flight under random schedules + histories in which a "
                 "connection ends after only the first bytes of a message arrived; each step's "
                 "frames/events/deliveries/state recorded from the real HsmsProtocol and judged by TLC; distinct = distinct "
-                "input sequences")
+                "input sequences.  Leg T: executions of connection establishment + select (passive / active, peer accepting / refusing / "
+                "silent, messages in flight at accept, simultaneous select) recorded as one event per shared-state access and validated "
+                "by TLC as behaviours of the thread-level specification HsmsEndpoint")
     ctx.extra["monitor_edges"] = len(edges)
     ctx.extra["inflight_runs"] = len([j for j in jobs if j[5]])
     ctx.extra["partial_message_at_close_runs"] = len([t for t in traces if t.get("residues")])
